@@ -92,7 +92,6 @@ def gen(rng, tier):
         seed = rand_seed(rng)
         path = [rand_index(rng) for _ in range(rng.randrange(0, 4))]
         yield Case("xkeys", ["secp256k1", hx(seed), nats(path), hx(pv), hx(sv)], "xkeys")
-    yield Case("serkey", [hx(MAIN[0]), 256, hx(bytes(4)), 0, hx(bytes(32)), hx(b"\x02" + bytes(32))], "neg-depth256")
 
 
 def relations(rng, tier, rpt):
